@@ -18,6 +18,7 @@ from guppylang_internals.ast_util import annotate_location
 
 lib.repo_env.assert_repo(A)
 from crosshair.tracers import NoTracing
+from crosshair.core import realize
 
 _orig_aa_init = A.AssignmentAnalysis.__init__
 
@@ -136,7 +137,7 @@ def _choose(queue):
         raise RuntimeError("worklist does not terminate within 400 pops")
     elems = sorted(queue, key=lambda b: b.idx)
     if _Sched.i < len(_Sched.picks):
-        k = _Sched.picks[_Sched.i] % len(elems)
+        k = realize(_Sched.picks[_Sched.i]) % len(elems)   # the solver picks the next block: one path per distinct choice
         _Sched.i += 1
     else:
         k = 0
@@ -251,20 +252,15 @@ def _reach(srcs, tgt):
 
 
 LAST_DETAIL = None
+R = int(os.environ.get("VERIF_C09_R", "4"))   # each symbolic pick selects among the R lowest-indexed queued blocks (mod queue size)
+with NoTracing():
+    _SRC, _ARGS = PROGS[PROG]
+    _CFG = _build(_SRC)      # the real builder's graph, built once per process (concrete)
 
 
-def h_schedule(s0: int, s1: int, s2: int, s3: int, s4: int, s5: int, t0: int, t1: int, t2: int, t3: int, t4: int, t5: int) -> bool:
-    """
-    pre: 0 <= s0 < 4 and 0 <= s1 < 4 and 0 <= s2 < 4 and 0 <= s3 < 4 and 0 <= s4 < 4 and 0 <= s5 < 4
-    pre: 0 <= t0 < 4 and 0 <= t1 < 4 and 0 <= t2 < 4 and 0 <= t3 < 4 and 0 <= t4 < 4 and 0 <= t5 < 4
-    post: _
-    """
+def _run(picks_b, picks_f) -> bool:
     global LAST_DETAIL
-    src, args = PROGS[PROG]
-    cfg = _build(src)
-    # liveness runs first inside analyze (backward), then assignment (forward): s* steer the first, t* the second
-    picks_b = [s0, s1, s2, s3, s4, s5][:K]
-    picks_f = [t0, t1, t2, t3, t4, t5][:K]
+    cfg, args = _CFG, _ARGS
     orig_f, orig_b = A.ForwardAnalysis.run, A.BackwardAnalysis.run
 
     def run_b(self, bbs):
@@ -276,26 +272,52 @@ def h_schedule(s0: int, s1: int, s2: int, s3: int, s4: int, s5: int, t0: int, t1
         return FWD_SCHED(self, bbs)
 
     A.ForwardAnalysis.run, A.BackwardAnalysis.run = run_f, run_b
-    A.AssignmentAnalysis.__init__ = _aa_init_untraced
-    for cls, n, f in _LATTICE:
-        setattr(cls, n, _untraced(f))
     try:
-        stats = cfg.analyze({*args}, {*args}, [])
+        # graph, use/assign sets and lattice values are concrete; only the picks are symbolic and they are
+        # realised one by one inside _choose, so the rest runs untraced (x100 faster per path)
+        with NoTracing():
+            stats = cfg.analyze({*args}, {*args}, [])
     finally:
         A.ForwardAnalysis.run, A.BackwardAnalysis.run = orig_f, orig_b
-        A.AssignmentAnalysis.__init__ = _orig_aa_init
-        for cls, n, f in _LATTICE:
-            setattr(cls, n, f)
     with NoTracing():
         live, dass, mass = oracle(cfg, stats, {*args})
-    for b in cfg.bbs:
-        if set(cfg.live_before[b].keys()) != live[b]:
-            LAST_DETAIL = f"live_before[bb{b.idx}] = {sorted(cfg.live_before[b])}, path-based {sorted(live[b])}"
-            return False
-        if set(cfg.ass_before[b]) != dass[b]:
-            LAST_DETAIL = f"ass_before[bb{b.idx}] = {sorted(cfg.ass_before[b])}, path-based {sorted(dass[b])}"
-            return False
-        if set(cfg.maybe_ass_before[b]) != mass[b]:
-            LAST_DETAIL = f"maybe_ass_before[bb{b.idx}] = {sorted(cfg.maybe_ass_before[b])}, path-based {sorted(mass[b])}"
-            return False
+        for b in cfg.bbs:
+            if set(cfg.live_before[b].keys()) != live[b]:
+                LAST_DETAIL = f"live_before[bb{b.idx}] = {sorted(cfg.live_before[b])}, path-based {sorted(live[b])}"
+                return False
+            if set(cfg.ass_before[b]) != dass[b]:
+                LAST_DETAIL = f"ass_before[bb{b.idx}] = {sorted(cfg.ass_before[b])}, path-based {sorted(dass[b])}"
+                return False
+            if set(cfg.maybe_ass_before[b]) != mass[b]:
+                LAST_DETAIL = f"maybe_ass_before[bb{b.idx}] = {sorted(cfg.maybe_ass_before[b])}, path-based {sorted(mass[b])}"
+                return False
     return True
+
+
+def _ok(picks):
+    return all(0 <= p < R for p in picks)
+
+
+def h_schedule_bwd(s0: int, s1: int, s2: int, s3: int, s4: int, s5: int, s6: int, s7: int) -> bool:
+    """
+    pre: _ok([s0, s1, s2, s3, s4, s5, s6, s7][:K]) and [s0, s1, s2, s3, s4, s5, s6, s7][K:] == [0] * (8 - K)
+    post: _
+    """
+    # liveness (backward) runs first inside analyze; its first K picks are symbolic, the forward pass pops lowest-first
+    return _run([s0, s1, s2, s3, s4, s5, s6, s7][:K], [])
+
+
+def h_schedule_fwd(t0: int, t1: int, t2: int, t3: int, t4: int, t5: int, t6: int, t7: int) -> bool:
+    """
+    pre: _ok([t0, t1, t2, t3, t4, t5, t6, t7][:K]) and [t0, t1, t2, t3, t4, t5, t6, t7][K:] == [0] * (8 - K)
+    post: _
+    """
+    return _run([], [t0, t1, t2, t3, t4, t5, t6, t7][:K])
+
+
+def h_schedule_rev(flag: bool) -> bool:
+    """
+    post: _
+    """
+    # one concrete extreme schedule: always the highest-indexed queued block, both passes
+    return _run([-1] * 400 if flag else [0] * 400, [-1] * 400 if flag else [0] * 400)
